@@ -480,6 +480,9 @@ func (p *Program) eventLoop(model Model, cmds chan Cmd) (Model, error) {
 						if batchMsg, ok := msg.(BatchMsg); ok {
 							g, _ := errgroup.WithContext(p.ctx)
 							for _, cmd := range batchMsg {
+								if cmd == nil {
+									continue
+								}
 								cmd := cmd
 								g.Go(func() error {
 									p.Send(cmd())
